@@ -457,6 +457,17 @@ fn render_error(e: &InvalidSchemaError, out: &mut Vec<String>) {
         E::ImplementingNonInterface(t, i) => out.push(format!("(ImplementingNonInterface {t} {i})")),
         E::DuplicateFieldDefinition(t, f) => out.push(format!("(DuplicateFieldDefinition {t} {f})")),
         E::DuplicateTypeOrInterfaceDefinition(t) => out.push(format!("(DuplicateTypeOrInterfaceDefinition {t})")),
+        E::DuplicateDirectiveDefinition(n) => out.push(format!("(DuplicateDirectiveDefinition {n})")),
+        E::DuplicateScalarDefinition(n) => out.push(format!("(DuplicateScalarDefinition {n})")),
+        E::DuplicateSchemaDefinition => out.push("(DuplicateSchemaDefinition)".into()),
+        E::MissingSchemaDefinition => out.push("(MissingSchemaDefinition)".into()),
+        E::MissingQueryType => out.push("(MissingQueryType)".into()),
+        E::UndefinedQueryType(n) => out.push(format!("(UndefinedQueryType {n})")),
+        E::QueryTypeNotAnObject(n) => out.push(format!("(QueryTypeNotAnObject {n})")),
+        E::BuiltinScalarRedefinition(n) => out.push(format!("(BuiltinScalarRedefinition {n})")),
+        E::DuplicateFieldParameterDefinition(t, f, p) => {
+            out.push(format!("(DuplicateFieldParameterDefinition {t} {f} {p})"))
+        }
         _ => out.push("(UnknownVariant)".into()),
     }
 }
@@ -835,6 +846,14 @@ pub fn rule_violations(doc: &Doc) -> BTreeSet<&'static str> {
             if !fs.insert(&f.name) {
                 bad.insert("fields-distinct");
             }
+            let mut ps = BTreeSet::new();
+            for a in &f.args {
+                if !ps.insert(&a.name) {
+                    // a parameter name is declared once per field (GraphQL: argument names of a field
+                    // definition are unique; the frontend relies on it — F-C10-5)
+                    bad.insert("parameters-distinct");
+                }
+            }
         }
     }
     let mut dn = BTreeSet::new();
@@ -983,22 +1002,107 @@ pub fn rule_violations(doc: &Doc) -> BTreeSet<&'static str> {
     bad
 }
 
+/// Former panic documents (F-16 … F-21b): what the early-return errors of `Schema::new` may truthfully say.
+/// `Some(reason)` when the rendered error `(Variant args…)` claims something the document does not show.
+fn untruthful_early_error(doc: &Doc, variant: &str, args: &[&str]) -> Option<String> {
+    let blocks: Vec<&String> = doc.iter().filter_map(|d| if let Def::Schema(q) = d { Some(q) } else { None }).collect();
+    let count = |f: &dyn Fn(&Def) -> bool| doc.iter().filter(|d| f(d)).count();
+    let bad = |why: &str| Some(format!("{variant} {args:?}: {why}"));
+    match (variant, args) {
+        ("DuplicateSchemaDefinition", []) if blocks.len() < 2 => bad("fewer than two schema blocks"),
+        ("MissingSchemaDefinition", []) if !blocks.is_empty() => bad("there is a schema block"),
+        ("UndefinedQueryType", [q]) if !(blocks.len() == 1 && blocks[0] == q && type_of(doc, q).is_none()) => {
+            bad("not the undefined query type of the only schema block")
+        }
+        ("QueryTypeNotAnObject", [q])
+            if !(blocks.len() == 1 && blocks[0] == q && type_of(doc, q).is_some_and(|t| t.is_interface)) =>
+        {
+            bad("not an interface named by the only schema block")
+        }
+        ("BuiltinScalarRedefinition", [n])
+            if !(SCALARS.contains(n)
+                && count(&|d| match d {
+                    Def::Scalar(x) | Def::Unsupported(_, x) => x == n,
+                    Def::Type(t) => t.name == *n,
+                    _ => false,
+                }) >= 1) =>
+        {
+            bad("no definition with that built-in name")
+        }
+        ("DuplicateDirectiveDefinition", [n]) if count(&|d| matches!(d, Def::Directive(x) if x == n)) < 2 => {
+            bad("directive not defined twice")
+        }
+        ("DuplicateScalarDefinition", [n]) if count(&|d| matches!(d, Def::Scalar(x) if x == n)) < 2 => {
+            bad("scalar not defined twice")
+        }
+        ("MissingQueryType", _) => bad("the text parser rejects a schema block without `query:`"),
+        ("DuplicateFieldParameterDefinition", [t, f, p])
+            if !types(doc).iter().any(|d| {
+                d.name == *t && d.fields.iter().any(|x| x.name == *f && x.args.iter().filter(|a| a.name == *p).count() >= 2)
+            }) =>
+        {
+            bad("no such field declaring that parameter twice")
+        }
+        _ => None,
+    }
+}
+
+/// When exactly ONE documented rule is violated and it is one of the rules whose violation used to
+/// panic, the answer is determined by the documentation of the new variants: the expected answer text.
+fn expected_early_error(doc: &Doc, violated: &BTreeSet<&'static str>) -> Option<String> {
+    if violated.len() != 1 {
+        return None;
+    }
+    let blocks: Vec<&String> = doc.iter().filter_map(|d| if let Def::Schema(q) = d { Some(q) } else { None }).collect();
+    let first_repeated = |names: Vec<&String>| -> Option<String> {
+        let mut seen = BTreeSet::new();
+        names.into_iter().find(|n| !seen.insert((*n).clone())).cloned()
+    };
+    let e = match *violated.iter().next().unwrap() {
+        "one-schema-block" => {
+            if blocks.is_empty() { "(MissingSchemaDefinition)".to_string() } else { "(DuplicateSchemaDefinition)".to_string() }
+        }
+        "query-type-is-defined-object" => match type_of(doc, blocks[0]) {
+            None => format!("(UndefinedQueryType {})", blocks[0]),
+            Some(_) => format!("(QueryTypeNotAnObject {})", blocks[0]),
+        },
+        "directives-distinct" => format!(
+            "(DuplicateDirectiveDefinition {})",
+            first_repeated(doc.iter().filter_map(|d| if let Def::Directive(n) = d { Some(n) } else { None }).collect())?
+        ),
+        "scalars-distinct" => format!(
+            "(DuplicateScalarDefinition {})",
+            first_repeated(doc.iter().filter_map(|d| if let Def::Scalar(n) = d { Some(n) } else { None }).collect())?
+        ),
+        "builtin-not-redefined" => format!(
+            "(BuiltinScalarRedefinition {})",
+            doc.iter().find_map(|d| match d {
+                Def::Scalar(n) if SCALARS.contains(&n.as_str()) => Some(n),
+                Def::Type(t) if SCALARS.contains(&t.name.as_str()) => Some(&t.name),
+                _ => None,
+            })?
+        ),
+        "parameters-distinct" => {
+            // the first field in document order that repeats a parameter name; its first repeated name
+            let (t, f, p) = types(doc).iter().find_map(|t| {
+                t.fields.iter().find_map(|f| {
+                    first_repeated(f.args.iter().map(|a| &a.name).collect()).map(|p| (t.name.clone(), f.name.clone(), p))
+                })
+            })?;
+            format!("(DuplicateFieldParameterDefinition {t} {f} {p})")
+        }
+        _ => return None,
+    };
+    Some(format!("(err {e})"))
+}
+
 /// Features outside the documented rules on which the accept ⇔ valid oracle is silent.
+/// (Until the repair of F-C10-5 duplicate parameter names were in this class too: Schema::parse accepted
+/// them; they violate the rule `parameters-distinct` now.)
 fn undocumented(doc: &Doc) -> Option<&'static str> {
     for d in doc {
-        match d {
-            Def::Unsupported(..) => return Some("unsupported-definition"),
-            Def::Type(t) => {
-                for f in &t.fields {
-                    let mut an = BTreeSet::new();
-                    for a in &f.args {
-                        if !an.insert(&a.name) {
-                            return Some("duplicate-parameter-name");
-                        }
-                    }
-                }
-            }
-            _ => {}
+        if let Def::Unsupported(..) = d {
+            return Some("unsupported-definition");
         }
     }
     None
@@ -1747,7 +1851,7 @@ impl Prop for C19 {
         "C19"
     }
     fn rule(&self) -> &'static str {
-        "requests are (schema-new <doc>): an abstract schema document rendered to SDL text for the real Schema::parse and interpreted directly by the Lean model. Valid stream: generated valid schemas (2-6 vertex types besides the root, interfaces with transitively closed implements incl. chains, properties of every built-in scalar and list shape up to depth 3, edges incl. self-edges and list edges, parameterised edges with/without defaults, inherited fields narrowed in nullability / edge target / widened parameter types, the directive prelude, custom directives, custom scalars, schema block first/middle/last, shuffled definitions). Inherited-field type matrix (tag nt:inherit-matrix; enumerated, not sampled, no randomness): in the fixed hierarchy interface Base, interface Derived implements Base, type Leaf implements Derived & Base, unrelated type Other, one field is declared with type P in the parent and re-declared with type C in the child, the rest of the document being valid so that the inherited-field type rule alone decides; edge fields: P and C over every ordered pair of the four vertex types (same, direct subtype, indirect subtype, supertype, unrelated) x non-list/list on each side incl. mismatches x every non-null flag combination at every level on each side (16 x 6 x 6 cells); property fields: scalar pairs Int/Int, Int/String, ID/String, Float/Int x every shape of list depth <= 1 (quick) or <= 2 (thorough) on each side with every flag combination; each cell for the parent/child placements Derived(interface)->Leaf(object) and Base(interface)->Derived(interface, repeated by Leaf), thorough also Base->Leaf through an unchanged Derived; the generator asserts that the independent rule checker finds exactly {} or {inherited-fields-only-narrowed} and agrees with the closed-form verdict of the cell. Malformed stream: 45 mutations (each documented rule violated, each panic trigger, duplicates of types/fields/implements/parameters) applied singly to several bases and in all ordered pairs. A case is distinct by its request text; it is non-trivial when the document has an interface with fields and an implementer (the inheritance rules are exercised), is a cell of the inherited-field type matrix, or carries a mutation. Oracle on the implementation: no panic; accept iff an independent checker of the documented rules (harness, not derived from the Rust code) finds no violated rule (silent on unsupported definitions and on duplicate parameter names, which the documented rules do not mention)."
+        "requests are (schema-new <doc>): an abstract schema document rendered to SDL text for the real Schema::parse and interpreted directly by the Lean model. Valid stream: generated valid schemas (2-6 vertex types besides the root, interfaces with transitively closed implements incl. chains, properties of every built-in scalar and list shape up to depth 3, edges incl. self-edges and list edges, parameterised edges with/without defaults, inherited fields narrowed in nullability / edge target / widened parameter types, the directive prelude, custom directives, custom scalars, schema block first/middle/last, shuffled definitions). Inherited-field type matrix (tag nt:inherit-matrix; enumerated, not sampled, no randomness): in the fixed hierarchy interface Base, interface Derived implements Base, type Leaf implements Derived & Base, unrelated type Other, one field is declared with type P in the parent and re-declared with type C in the child, the rest of the document being valid so that the inherited-field type rule alone decides; edge fields: P and C over every ordered pair of the four vertex types (same, direct subtype, indirect subtype, supertype, unrelated) x non-list/list on each side incl. mismatches x every non-null flag combination at every level on each side (16 x 6 x 6 cells); property fields: scalar pairs Int/Int, Int/String, ID/String, Float/Int x every shape of list depth <= 1 (quick) or <= 2 (thorough) on each side with every flag combination; each cell for the parent/child placements Derived(interface)->Leaf(object) and Base(interface)->Derived(interface, repeated by Leaf), thorough also Base->Leaf through an unchanged Derived; the generator asserts that the independent rule checker finds exactly {} or {inherited-fields-only-narrowed} and agrees with the closed-form verdict of the cell. Malformed stream: 45 mutations (each documented rule violated, each present or former panic trigger, duplicates of types/fields/implements/parameters) applied singly to several bases and in all ordered pairs. A case is distinct by its request text; it is non-trivial when the document has an interface with fields and an implementer (the inheritance rules are exercised), is a cell of the inherited-field type matrix, or carries a mutation. Oracle on the implementation: no panic; accept iff an independent checker of the documented rules (harness, not derived from the Rust code) finds no violated rule (silent on unsupported definitions only; duplicate parameter names of a field violate the rule parameters-distinct since the repair of F-C10-5); the typed errors that replaced the panics of F-16..F-21b and closed F-C10-5 (DuplicateSchemaDefinition, MissingSchemaDefinition, UndefinedQueryType, QueryTypeNotAnObject, BuiltinScalarRedefinition, DuplicateDirectiveDefinition, DuplicateScalarDefinition, DuplicateFieldParameterDefinition) must be truthful about the document (key untruthful-error:V), and a document violating exactly one of the rules one-schema-block / query-type-is-defined-object / builtin-not-redefined / directives-distinct / scalars-distinct / parameters-distinct must be rejected with exactly the corresponding single error (key wrong-error:rule)."
     }
     fn generate(&self, tier: Tier, rng: &mut Rng) -> Vec<Case> {
         let mut out = vec![];
@@ -1837,6 +1941,29 @@ impl Prop for C19 {
                     detail: format!("rejected with {} although every documented rule holds", e.answer),
                     requests: vec![e.line.clone()],
                 });
+            }
+            // the former panic documents (F-16 … F-21b) are rejected with a typed error that says what is wrong
+            if let Some(Sexp::List(items)) = Sexp::parse(&e.answer) {
+                for it in items.iter().skip(1) {
+                    let Some((variant, args)) = it.as_call() else { continue };
+                    let args: Vec<&str> = args.iter().filter_map(|a| a.as_atom()).collect();
+                    if let Some(why) = untruthful_early_error(&doc, variant, &args) {
+                        fails.push(OracleFailure {
+                            key: format!("untruthful-error:{variant}"),
+                            detail: why,
+                            requests: vec![e.line.clone()],
+                        });
+                    }
+                }
+            }
+            if let Some(expected) = expected_early_error(&doc, &violated) {
+                if e.answer != expected {
+                    fails.push(OracleFailure {
+                        key: format!("wrong-error:{}", violated.iter().next().unwrap()),
+                        detail: format!("only rule {violated:?} is violated: expected {expected}, got {}", e.answer),
+                        requests: vec![e.line.clone()],
+                    });
+                }
             }
         }
         fails
